@@ -15,7 +15,7 @@ Lemma C15_inst_registry :
   row_ok "B324" "hashlib_insecure_functions" "hashlib" None ["Call"]
   && row_ok "B505" "weak_cryptographic_key" "weak_cryptographic_key" (Some "weak_cryptographic_key") ["Call"]
   && row_ok "B502" "ssl_with_bad_version" "ssl_with_bad_version" (Some "ssl_with_bad_version") ["Call"]
-  && row_ok "B503" "ssl_with_bad_defaults" "ssl_with_bad_defaults" (Some "ssl_with_bad_version") ["FunctionDef"]
+  && row_ok "B503" "ssl_with_bad_defaults" "ssl_with_bad_defaults" (Some "ssl_with_bad_version") ["FunctionDef"; "AsyncFunctionDef"]
   && row_ok "B504" "ssl_with_no_version" "ssl_with_no_version" None ["Call"]
   && row_ok "B501" "request_with_no_cert_validation" "request_with_no_cert_validation" None ["Call"]
   && row_ok "B113" "request_without_timeout" "request_without_timeout" None ["Call"]
